@@ -1,6 +1,8 @@
 pub mod common;
 pub mod config;
 pub mod swarm;
+#[cfg(feature = "verif")]
+pub mod verif_sync;
 pub mod workers;
 
 use std::thread::{available_parallelism, sleep, Builder, JoinHandle};
